@@ -43,20 +43,20 @@ type dispAct struct {
 
 // dispRun is one execution of the real object plus the harness-side oracle.
 type dispRun struct {
-	in      dispIn
-	st      *transfer.VerifSendState
-	bits    map[int]bool
-	ready   bool
-	rpc     string // wait | vp | planned | none
-	vpc     string // off | running | done
-	wpc     []string
-	wchunk  []int
-	handed  map[int]int
-	resends int
-	ends    int
-	planned bool
-	trace   []string
-	res     *Result
+	in             dispIn
+	st             *transfer.VerifSendState
+	bits           map[int]bool
+	ready          bool
+	rpc            string // wait | vp | planned | none
+	vpc            string // off | running | done
+	wpc            []string
+	wchunk         []int
+	handed         map[int]int
+	resends        int
+	ends           int
+	planned        bool
+	trace          []string
+	res            *Result
 	verifyAfterEnd bool
 }
 
